@@ -47,6 +47,27 @@ def run(ctx):
         ctx.violation({"file": "dateparser/data/dateparser_tz_cache.pkl"}, "pattern flags in the pickled table differ from re.IGNORECASE patterns rebuilt from the source")
     if summary.get("tz_search_ok") is False:
         ctx.violation({"file": "dateparser/data/dateparser_tz_cache.pkl"}, "the pickled search regexes differ from those rebuilt from the source")
+    # ---- the generator run FOR REAL (it writes its files) on a private copy: what lands on disk is what is shipped
+    import shutil
+    priv = os.path.dirname(ctx.path("c16real", "x"))
+    for d in ("dateparser", "dateparser_data", "dateparser_scripts"):
+        shutil.copytree(os.path.join(snap, d), os.path.join(priv, d), dirs_exist_ok=True)
+    shipped_dir = os.path.join(snap, "dateparser", "data", "date_translation_data")
+    shipped = {f: open(os.path.join(shipped_dir, f), "rb").read() for f in os.listdir(shipped_dir) if f.endswith(".py") and f != "__init__.py"}
+    env2 = dict(env)
+    env2["PYTHONPATH"] = os.path.dirname(os.path.dirname(stub)) + os.pathsep + priv + os.pathsep + core.VERIF
+    p2 = subprocess.run([core.PY, "-c", "import dateparser_scripts.write_complete_data as w; w.write_complete_data()"], env=env2, cwd=priv,
+                        stdout=subprocess.PIPE, stderr=subprocess.PIPE, text=True, timeout=900)
+    written_dir = os.path.join(priv, "dateparser", "data", "date_translation_data")
+    if p2.returncode != 0:
+        ctx.violation({"generator_stderr": p2.stderr[-1200:]}, "the repository's generator fails when it is run for real (writing its files)")
+        written = {}
+    else:
+        written = {f: open(os.path.join(written_dir, f), "rb").read() for f in os.listdir(written_dir) if f.endswith(".py") and f != "__init__.py"}
+        for f in sorted(set(shipped) | set(written)):
+            if shipped.get(f) != written.get(f) and not any(v["case"].get("file", "").endswith("/" + f) for v in ctx.violations):
+                ctx.violation({"file": "dateparser/data/date_translation_data/%s" % f, "how": "generator run with in_memory=False on a private copy of the sources"},
+                              "the file the generator WRITES differs from the shipped module (or one side is missing)")
     tuples, gen = core.validate_traces(ctx, "T_C16", "SPECIFICATION TSpec\nPOSTCONDITION Consumed\nCHECK_DEADLOCK FALSE\n", recs, shards=min(core.NCPU, 12), timeout=1200)
     for t in tuples["REJECT"]:
         _, tid, kind, verdict, extra = t[:5]
@@ -58,6 +79,7 @@ def run(ctx):
         ctx.violation({"file": what}, "TLC: %s" % verdict, observed=extra)
     nlang = sum(1 for r in recs if r["kind"] == "lang")
     cov = {
+        "modules_written_for_real_and_compared": len(written),
         "programs": nlang + 2, "disagreements_checked": nlang * 3 + 4 + summary.get("tz_rows", 0),
         "samples": [{"language_module": r["lang"], "keys": [kv[0] for kv in r["shipped"]["v"]][:8]} for r in recs if r["kind"] == "lang"][:3] +
                    [{"timezone_rows": summary.get("tz_rows"), "flags_ok": summary.get("tz_flags_ok"), "search_regexes_ok": summary.get("tz_search_ok")}],
